@@ -9,7 +9,7 @@ use any_vec::traits::{Cloneable, Trait};
 use any_vec::{AnyVec, AnyVecTyped, SatisfyTraits};
 
 use crate::elem::Elem;
-use crate::track::{Track, TrackFixed, TrackTight};
+use crate::track::{Track, TrackFence, TrackFixed, TrackTight};
 use crate::types::CapCall;
 
 #[derive(Clone, Copy, Debug, PartialEq, Eq)]
@@ -120,6 +120,15 @@ impl MX for TrackTight {
     fn make() -> Self { TrackTight }
     const AMORTISED: bool = false;
     fn name() -> String { "TrackTight".into() }
+    resizable_impl!();
+}
+
+impl<const FRONT: bool> MX for TrackFence<FRONT> {
+    const KIND: BK = BK::Track;
+    const AMORTISED: bool = false;
+    type Aux = Track;
+    fn make() -> Self { TrackFence::<FRONT> }
+    fn name() -> String { if FRONT { "TrackFence<front>".into() } else { "TrackFence<back>".into() } }
     resizable_impl!();
 }
 
